@@ -58,7 +58,7 @@ This function panics if `value` is greater than ", $max, "."
                     {
                         assert!($name::is_valid(value), concat!("{} is not a valid ", stringify!($name), " value"), value);
                     }
-                    #[cfg(feature = "no_std")]
+                    #[cfg(not(feature = "std"))]
                     {
                         assert!($name::is_valid(value), concat!("not a valid ", stringify!($name), " value"));
                     }
